@@ -44,6 +44,8 @@ type ldScenario struct {
 	Stale      int      `json:"stale"`      // 1 = the preloaded entry is due for refresh when the race starts (the clock moved past its refresh time) and the
 	                                        // refresh calculator's reload hook is a gate ("rc.reload"): user code that runs while a reload is being installed
 	Bare       int      `json:"bare"`       // 1 = a plain cache: no size bound, no expiry, no deletion handlers (fast paths that exist only there)
+	Dead       int      `json:"dead"`       // 1 = key 1 holds an EXPIRED value that maintenance has not removed yet when the race starts (needs expiry = 1);
+	                                        // the writer kind "sweep" is a maintenance run (CleanUp) that removes such dead nodes: not a write
 	Extra      int      `json:"extra"`      // 1 = the bulk loader fetches "the whole page": it also supplies the key of {1,2} it was not asked for
 }
 
@@ -252,6 +254,15 @@ func runLoadScenario(sc ldScenario) ldResult {
 			clk.now.Add(int64(2 * time.Hour)) // due for refresh (nothing expires in these scenarios)
 		}
 	}
+	if sc.Dead == 1 {
+		// an expired entry that no maintenance run has removed yet: lookups miss, the node is still in the table and in the wheel
+		c.Set(1, 40)
+		c.CleanUp()
+		for i := 0; i < 2000 && execN.Load() != 0; i++ {
+			time.Sleep(100 * time.Microsecond)
+		}
+		clk.now.Add(int64(2 * time.Hour))
+	}
 	runs := 0
 	rng := rand.New(rand.NewSource(sc.Seed * 977))
 	pickOutcome := func(id int) string {
@@ -291,6 +302,8 @@ func runLoadScenario(sc ldScenario) ldResult {
 		case "computecancel":
 			// a computation that decides to do nothing: no write, nothing cleared
 			c.Compute(1, func(old int, found bool) (int, ComputeOp) { return 0, CancelOp })
+		case "sweep":
+			c.CleanUp() // not a write: a maintenance run; it removes the nodes of entries that have expired
 		case "advance":
 			clk.now.Add(int64(2 * time.Hour)) // not a write: entries written before it expire (unswept)
 		}
